@@ -20,10 +20,10 @@ class C04(Prop):
     level = "fault_enumeration"
     title = "A query's answer does not depend on what was evaluated before it"
     campaigns = {
-        "quick": [("faultfree", 4000, 40), ("faults", 12000, 60), ("enumerated", 600, 60), ("the_enumerated", 1500, 60), ("rules_enumerated", 400, 60), ("extended", 4000, 60), ("known:extended_after_history", 3000, 40),
+        "quick": [("faultfree", 4000, 40), ("faults", 12000, 60), ("enumerated", 600, 60), ("the_enumerated", 1500, 60), ("rules_enumerated", 400, 60), ("extended", 4000, 60), ("shared_subquery", 15000, 60), ("known:extended_after_history", 3000, 40),
                   ("known:disjunction+for_all", 320, 30), ("known:disjunction+flatten", 320, 30),
                   ("known:disjunction+nested_query", 320, 30), ("known:predicate_with_repeated_variable", 320, 30), ("known:disjunction_over_different_variables", 320, 30), ("known:disjunction_of_multi_variable_conjunction", 320, 30), ("rules", 3000, 40), ("known:rule_tree_with_alternative_or_next", 320, 40), ("known:kwargs_form_variable_in_multi_variable_query", 320, 30), ("known:falsy_operand", 600, 30)],
-        "thorough": [("faultfree", 60000, 600), ("faults", 200000, 1500), ("enumerated", 12000, 1500), ("the_enumerated", 40000, 1200), ("rules_enumerated", 8000, 1200), ("extended", 100000, 900), ("known:extended_after_history", 60000, 600),
+        "thorough": [("faultfree", 60000, 600), ("faults", 200000, 1500), ("enumerated", 12000, 1500), ("the_enumerated", 40000, 1200), ("rules_enumerated", 8000, 1200), ("extended", 100000, 900), ("shared_subquery", 150000, 1200), ("known:extended_after_history", 60000, 600),
                      ("known:disjunction+for_all", 4000, 300), ("known:disjunction+flatten", 4000, 300),
                      ("known:disjunction+nested_query", 8000, 300), ("known:predicate_with_repeated_variable", 4000, 300), ("known:disjunction_over_different_variables", 20000, 300), ("known:disjunction_of_multi_variable_conjunction", 20000, 300), ("rules", 60000, 600), ("known:rule_tree_with_alternative_or_next", 6000, 400), ("known:kwargs_form_variable_in_multi_variable_query", 40000, 400), ("known:falsy_operand", 40000, 400)],
     }
@@ -77,6 +77,50 @@ class C04(Prop):
         return {"world": world, "pool": pool, "ops": [], "cfg": cfg, "enumerate": q["id"], "enumerate_the": "t0",
                 "the_only": True}
 
+    @staticmethod
+    def _share_subquery(rng, cfg, world, pool):
+        """One reusable sub-query OBJECT (`allowed = an(entity(x, ...))`) becomes a conjunct of two or more queries of
+        the pool, at different positions, so that one set of condition nodes is evaluated in different binding
+        contexts (its variable already bound by an earlier conjunct / still unbound)."""
+        names = [v["n"] for v in pool["vars"] if v["n"] != "u" and v.get("t") != "View"]
+        for _ in range(40):
+            n = rng.choice(names)
+            cg = G.CondGen(rng, dict(cfg, vocab=sorted((set(cfg["vocab"]) | {"in"}) - {"nest", "forall", "flat"})),
+                           world, names, {})
+            sub_conds = []
+            for _k in range(rng.choice([1, 1, 2])):
+                if rng.random() < 0.5:
+                    # the literal operand comes first: in_(x.a, [1, 3]) is contains([1, 3], x.a)
+                    sub_conds.append(["in", cg.num_term([n]), ["lit", rng.sample(world["vals"], 2)]])
+                else:
+                    sub_conds.append(cg.atom([n]))
+            sub = ["sub", n, sub_conds, "s0"]
+            chosen = rng.sample(range(len(pool["queries"])), rng.randint(2, len(pool["queries"])))
+            trial = copy.deepcopy(pool["queries"])
+            for qi in chosen:
+                q = trial[qi]
+                conds = q.setdefault("conds", [])
+                conds.insert(rng.randint(0, len(conds)), copy.deepcopy(sub))
+                others = [m for m in names if m != n]
+                if others and rng.random() < 0.5:
+                    # a join condition with another variable, before or after the sub-query
+                    o = rng.choice(others)
+                    j = ["cmp", cg.num_term([o]), rng.choice(["==", "==", "!=", "<", ">="]), cg.num_term([n])]
+                    conds.insert(rng.randint(0, len(conds)), j)
+                    if q.get("shape") == "set_of" and o not in q["sel"] and rng.random() < 0.7:
+                        q["sel"] = q["sel"] + [o]
+            probe = dict(pool, queries=trial)
+            if not G.pool_regions(probe):
+                pool["queries"] = trial
+                return
+        # could not stay outside the known-defect regions: the sub-query alone
+        n = names[0]
+        for q in pool["queries"]:
+            q["conds"] = [["sub", n, [["in", ["attr", ["v", n], "a"], ["lit", list(world["vals"][:2])]]], "s0"]]
+        if G.pool_regions(pool):
+            for q in pool["queries"]:
+                q["conds"] = []
+
     def gen(self, rng, tier, campaign):
         if campaign == "the_enumerated":
             return self._gen_the_enumerated(rng, tier)
@@ -87,6 +131,10 @@ class C04(Prop):
         if campaign == "known:extended_after_history":
             cfg["n_vars"] = rng.choice([1, 2, 2, 2, 3])
             cfg["depth"] = max(1, cfg["depth"])
+        if campaign == "shared_subquery":
+            cfg["n_vars"] = rng.choice([2, 2, 2, 3])
+            cfg["n_queries"] = rng.choice([2, 2, 3])
+            cfg["depth"] = min(cfg["depth"], 2)
         cfg["kinds"] = ["list", "list", "tuple", "gen", "iterobj"]
         cfg["allow_nodom"] = True
         # falsy attribute values (0, []) are dropped inside comparison operands by the pinned engine (the pure-
@@ -113,6 +161,8 @@ class C04(Prop):
                             q["rule"]["children"] = []
         else:
             world, pool = G.gen_world_and_pool(rng, cfg, want_region=region)
+        if campaign == "shared_subquery":
+            self._share_subquery(rng, cfg, world, pool)
         # `the` variants share the variables of the pool
         an_ids = [q["id"] for q in pool["queries"]]
         if campaign == "faults" and rng.random() < 0.4:
